@@ -276,7 +276,7 @@ class Gen:
                 self.broke = True
                 return ("raw", "true")
             return ("lit", r.range(0, 9))
-        k = r.below(34)
+        k = r.below(36)
         d = depth - 1
         if k <= 1:
             return ("bin", r.pick(["+", "-", "*"]), self.int_expr(env, d), self.int_expr(env, d))
@@ -378,6 +378,38 @@ class Gen:
             return self.hidden_placeholder_arg(env, d)
         if k in (26, 27, 28):
             return self.branch_join(env, d)
+        if k in (34, 35):
+            # tuple literals in the parser's `( id …` cover grammar: leading bare identifiers, then an
+            # element that starts with an identifier and continues as a compound expression
+            self.forms.add("tuple-cover-grammar")
+            a, b, g, bx, p, q = (self.fresh() for _ in range(6))
+            shape = r.below(7)
+            va, vb = ("var", a), ("var", b)
+            third = None
+            if shape == 0:
+                els = [va, ("bin0", r.pick(["+", "-", "*"]), vb, ("lit", r.range(1, 9)))]
+            elif shape == 1:
+                els = [va, ("call", ("var", g), [vb])]
+            elif shape == 2:
+                els = [va, ("post", ("var", bx), ".fa")]
+            elif shape == 3:
+                els = [("bin0", "+", va, ("lit", 1)), vb]
+            elif shape == 4:
+                els = [va, vb]
+            elif shape == 5:
+                third = self.fresh()
+                els = [va, vb, ("bin0", "*", va, vb)]
+            else:
+                els = [va, ("bin0", "+", ("paren", vb), ("paren", va))]
+            pats = [("pid", p), ("pid", q)] + ([("pid", third)] if third else [])
+            lets = [("let", ("pid", a), self.int_expr(env, d), False), ("let", ("pid", b), self.int_expr(env, d), False),
+                    ("let", ("pid", g, "(int) -> int"), ("lam", [(self.fresh(), True)], ("lit", 7)), None),
+                    ("let", ("pid", bx, "Box"), ("raw2", "Box.mk(", [va], ")"), False),
+                    ("let", ("ptuple", pats), ("tuplec", els), None)]
+            res = ("bin", "+", ("var", p), ("var", q))
+            if third:
+                res = ("bin", "+", res, ("var", third))
+            return ("block", lets, res)
         if k == 31:
             self.forms.add("unary")
             if r.chance(1, 2):
@@ -590,8 +622,10 @@ def expr_s(e):
         return go(0)
     if k == "iflet":
         return f"if let {pat_s(e[1])} = {expr_s(e[2])} {{ {expr_s(e[3])} }} else {{ {expr_s(e[4])} }}"
-    if k == "tuple":
+    if k in ("tuple", "tuplec"):
         return "(" + ", ".join(expr_s(x) for x in e[1]) + ")"
+    if k == "bin0":      # binary operand written without parentheses (element of a tuple literal)
+        return f"{expr_s(e[2])} {e[1]} {expr_s(e[3])}"
     if k == "block":
         ss = "".join((f"{expr_s(x)}; " if p[0] == "pstmt" else
                       f"let {pat_s(p)}{(': ' + (p[2] if len(p) > 2 else 'int')) if ann else ''} = {expr_s(x)}; ")
@@ -676,8 +710,10 @@ def map_expr(e, f):
         return f((k, [(map_expr(c, f), map_expr(b, f)) for c, b in e[1]], map_expr(e[2], f), e[3]))
     if k == "iflet":
         return f((k, map_expr(e[1], f), map_expr(e[2], f), map_expr(e[3], f), map_expr(e[4], f)))
-    if k == "tuple":
+    if k in ("tuple", "tuplec"):
         return f((k, [map_expr(x, f) for x in e[1]]))
+    if k == "bin0":
+        return f((k, e[1], map_expr(e[2], f), map_expr(e[3], f)))
     if k == "block":
         return f((k, [(s[0], map_expr(s[1], f), map_expr(s[2], f), s[3]) for s in e[1]], map_expr(e[2], f)))
     if k == "match":
@@ -941,6 +977,58 @@ PATH_FAMILY = [
     ("import-missing-export", "rejected", [], [], "import { NoSuchClass } from std.option;\n"),
     ("import-unresolved-module", "rejected", [], [], "import { A } from no.such.mod;\n"),
 ]
+
+
+# ---- bounds that mention other type parameters; three spellings of one instantiation
+BOUNDS_LIB = [
+    ("Conv", "interface Conv<T> {\n  method conv(): T\n}"),
+    ("Pairing", "interface Pairing<X, Y> {\n  method pr(): int\n}"),
+    CMP,
+    ("Cm", "class Cm(val c: int) : Cmp {\n  method cmp(): int = this.c\n}"),
+    ("Feet", "class Feet(val v: int) {}"),
+    ("Meters", "class Meters(val v: int) : Conv<Feet> {\n  method conv(): Feet = Feet.init(this.v)\n}"),
+    ("Selfy", "class Selfy(val v: int) : Conv<Selfy> {\n  method conv(): Selfy = Selfy.init(this.v)\n}"),
+    ("Pm", "class Pm(val v: int) : Pairing<Pm, Feet> {\n  method pr(): int = this.v\n}"),
+    ("LkLater", "class LkLater<A: Conv<B>, B>(val a: A, val b: B) {}"),
+    ("LkEarlier", "class LkEarlier<A, B: Conv<A>>(val a: A, val b: B) {}"),
+    ("LkSelf", "class LkSelf<A: Conv<A>, B>(val a: A, val b: B) {}"),
+    ("LkPlain", "class LkPlain<A: Cmp, B>(val a: A, val b: B) {}"),
+    ("LkBoth", "class LkBoth<A: Pairing<A, B>, B>(val a: A, val b: B) {}"),
+    ("Lk3", "class Lk3<A: Conv<C>, B, C>(val a: A, val b: B, val c: C) {}"),
+    ("Bf", "class Bf {\n  function <A: Conv<B>, B> later(a: A, b: B): int = 1\n  function <A, B: Conv<A>> earlier(a: A, b: B): int = 2\n}"),
+]
+# (label, callee, result type (None = int), type arguments, satisfying arguments, violating arguments)
+BOUND_CASES = [
+    ("later", "LkLater.init", "LkLater<Meters, Feet>", ["Meters", "Feet"], ["Meters.init(v0)", "Feet.init(1)"], ["Feet", "Feet"], ["Feet.init(v0)", "Feet.init(1)"]),
+    ("earlier", "LkEarlier.init", "LkEarlier<Feet, Meters>", ["Feet", "Meters"], ["Feet.init(v0)", "Meters.init(1)"], ["Feet", "Feet"], ["Feet.init(v0)", "Feet.init(1)"]),
+    ("self", "LkSelf.init", "LkSelf<Selfy, Feet>", ["Selfy", "Feet"], ["Selfy.init(v0)", "Feet.init(1)"], ["Feet", "Feet"], ["Feet.init(v0)", "Feet.init(1)"]),
+    ("plain", "LkPlain.init", "LkPlain<Cm, Feet>", ["Cm", "Feet"], ["Cm.init(v0)", "Feet.init(1)"], ["Feet", "Feet"], ["Feet.init(v0)", "Feet.init(1)"]),
+    ("both", "LkBoth.init", "LkBoth<Pm, Feet>", ["Pm", "Feet"], ["Pm.init(v0)", "Feet.init(1)"], ["Feet", "Feet"], ["Feet.init(v0)", "Feet.init(1)"]),
+    ("three", "Lk3.init", "Lk3<Meters, int, Feet>", ["Meters", "int", "Feet"], ["Meters.init(v0)", "1", "Feet.init(2)"], ["Feet", "int", "Feet"], ["Feet.init(v0)", "1", "Feet.init(2)"]),
+    ("fn-later", "Bf.later", None, ["Meters", "Feet"], ["Meters.init(v0)", "Feet.init(1)"], ["Feet", "Feet"], ["Feet.init(v0)", "Feet.init(1)"]),
+    ("fn-earlier", "Bf.earlier", None, ["Feet", "Meters"], ["Feet.init(v0)", "Meters.init(1)"], ["Feet", "Feet"], ["Feet.init(v0)", "Feet.init(1)"]),
+]
+
+
+def _bound_entries():
+    out = []
+    for label, callee, ty, targs, sat_args, bad_targs, bad_args in BOUND_CASES:
+        pid = ("pid", "t1", ty) if ty else ("pid", "t1")
+        # satisfying: written inferred; the annotate rewrites produce the annotated / explicit spellings
+        call = gc(callee, [("raw", a) for a in sat_args], targs)
+        out.append(("bound-" + label + "-satisfied", "accepted", [("let", pid, call, False)], BOUNDS_LIB, ""))
+        # violating: the three spellings must all be rejected
+        bad_ty = ty.split("<")[0] + "<" + ", ".join(bad_targs) + ">" if ty else None
+        bpid = ("pid", "t1", bad_ty) if ty else ("pid", "t1")
+        for sp, ann, explicit in (("inferred", False, False), ("annotated", True, False), ("explicit", False, True)):
+            if sp == "annotated" and not ty:
+                continue
+            bcall = gc(callee, [("raw", a) for a in bad_args], bad_targs, None, explicit)
+            out.append(("bound-" + label + "-violated-" + sp, "rejected", [("let", bpid, bcall, ann)], BOUNDS_LIB, ""))
+    return out
+
+
+PATH_FAMILY += _bound_entries()
 
 
 def path_program(entry):
